@@ -813,3 +813,75 @@ client_timeout!(c10_client_timeout_awaiting_counter, 1, false, false);
 client_timeout!(c10_client_timeout_awaiting_subscription, 2, false, false);
 // @verif tier=thorough unwind=6 fs=1300 timeout=1200
 client_timeout!(c10_client_timeout_awaiting_publication, 3, false, false);
+
+// ------------------------------------------------------------------------------------------------------------------
+// C12 — more of the image / log-buffer bookkeeping that does not need a live subscription handle.
+
+/// `LogBuffers::from_existing` maps a file: out of reach. In these harnesses a mapping must never be requested.
+fn mapping_forbidden<P: std::fmt::Display + AsRef<std::path::Path> + Into<std::ffi::OsString>>(_file_path: P, _pre_touch: bool) -> Result<LogBuffers, AeronError> {
+    assert!(false, "C12: a log file was mapped although no live subscription / publication asked for it");
+    kani::assume(false);
+    loop {}
+}
+
+/// An image announced for a subscription that is not (yet) usable - still awaiting the driver, or unknown - is ignored:
+/// no callback, nothing mapped, no bookkeeping entry.
+macro_rules! unusable_sub {
+    ($name:ident, $unknown:expr) => {
+#[kani::proof]
+#[kani::stub(std::hash::RandomState::new, stub_random_state)]
+#[kani::stub(crate::utils::log_buffers::LogBuffers::from_existing, mapping_forbidden)]
+fn $name() {
+    let mut b = Bufs::new();
+    let mut c = fresh(&mut b, 10_000);
+    unsafe { SEEN.now = 5 };
+    let sid = vok!(c.add_subscription(text(b"ch"), 5, Box::new(on_image_counted as fn(&Image)), Box::new(on_image_counted as fn(&Image))), "C12: add_subscription");
+    let target = if $unknown { sid + 1000 } else { sid }; // unknown subscription / subscription still awaiting the driver
+    unsafe { IMG.calls = 0 };
+    let (corr, session, pos_id): (i64, i32, i32) = (kani::any(), kani::any(), 0);
+    c.on_available_image(corr, session, pos_id, target, text(b"f"), text(b"s"));
+    assert!(unsafe { IMG.calls } == 0, "C12: no available-image callback for a subscription that is not usable");
+    assert!(c.log_buffers_by_registration_id.is_empty() && c.lingering_image_lists.is_empty(), "C12: an ignored announcement leaves no bookkeeping behind");
+    c.on_unavailable_image(corr, target);
+    assert!(unsafe { IMG.calls } == 0, "C12: no unavailable-image callback for an image that was never announced to the user");
+    std::mem::forget(c);
+}
+    };
+}
+// @verif tier=quick unwind=6 fs=1300 timeout=1200
+unusable_sub!(c12_image_for_unknown_subscription_is_ignored, true);
+// @verif tier=quick unwind=6 fs=1300 timeout=1200
+unusable_sub!(c12_image_for_awaiting_subscription_is_ignored, false);
+
+struct ImgSeen {
+    magic: u64,
+    calls: u32,
+}
+static mut IMG: ImgSeen = ImgSeen { magic: 0x5a5a_c12c_1396_0001, calls: 0 };
+fn on_image_counted(_img: &Image) {
+    unsafe { IMG.calls += 1 }
+}
+
+/// Re-acquiring log buffers that are lingering (cache hit) hands out the same mapping and cancels the linger countdown.
+// @verif tier=quick unwind=6 fs=1300 timeout=1200
+#[kani::proof]
+#[kani::stub(std::hash::RandomState::new, stub_random_state)]
+#[kani::stub(crate::utils::log_buffers::LogBuffers::from_existing, mapping_forbidden)]
+fn c12_reacquired_log_buffers_stop_lingering() {
+    let mut b = Bufs::new();
+    let mut logmem = Mem::<{ 3 * 64 + 4096 }>::zeroed();
+    let mut c = fresh(&mut b, 10_000);
+    let lb = Arc::new(heap_log_buffers(&mut logmem));
+    let mut defn = LogBuffersDefn::new(lb.clone());
+    defn.time_of_last_state_change_ms = any_time(); // noticed unreferenced earlier: countdown running
+    c.log_buffers_by_registration_id.insert(42, defn);
+    let got = vok!(c.get_log_buffers(42, text(b"f"), text(b"ch")), "C12: cached log buffers are handed out");
+    assert!(Arc::ptr_eq(&got, &lb), "C12: the same mapping is handed out while it exists");
+    match c.log_buffers_by_registration_id.get(&42) {
+        Some(d) => assert!(d.time_of_last_state_change_ms == MAX_MOMENT, "C12: memory that is in use again is no longer counting down to its release"),
+        None => assert!(false, "C12: the mapping entry disappeared"),
+    }
+    std::mem::forget(got);
+    std::mem::forget(lb);
+    std::mem::forget(c);
+}
